@@ -25,6 +25,13 @@ func init() {
 		ruleAggregations(r, "C03")
 		ruleLimitAutocut(r, "C03")
 		ruleDocumentFilter(r, "C03.FILTER")
+		nb := 0
+		for _, T := range builderTypes(r.W, "TextSearch") {
+			nb += ruleBuilders(r, "C03.BLD", T)
+		}
+		if nb < 5 {
+			r.add("C03.BLD", "floor", "-", "fewer than 5 builder methods on the text search type", Floor)
+		}
 		r.FloorCheck("C03.ADM", 3)
 		r.FloorCheck("C03.STATS", 6)
 		r.FloorCheck("C03.HEAP", 5)
